@@ -204,12 +204,12 @@ def full_name(cat, u):
     return (parent + "::" if parent else "") + "verif_%s::%s" % (u["module"], u["harness"])
 
 
-def run_kani(cat, dst, scratch, pkg, units, timeout, jobs, solver=None):
+def run_kani(cat, dst, scratch, pkg, units, timeout, jobs, feats=""):
     out_json = os.path.join(scratch, "kani-%s-%d.json" % (pkg, int(time.time() * 1000) % 100000))
     cmd = ["cargo", "kani", "-p", pkg] + KANI_FLAGS + ["-j", str(jobs), "--output-format", "terse",
            "--harness-timeout", str(timeout), "--export-json", out_json, "--exact"]
-    if getattr(cat, "FEATURES", {}).get(pkg):
-        cmd += cat.FEATURES[pkg]
+    if feats:
+        cmd += feats.split()
     for u in units:
         cmd += ["--harness", full_name(cat, u)]
     rc, out, wall = sh(cmd, cwd=dst, timeout=timeout * max(1, (len(units) + jobs - 1) // jobs) + 900)
@@ -292,8 +292,8 @@ def concrete_playback(cat, dst, scratch, pkg, units, timeout):
     def one(u):
         cmd = ["cargo", "kani", "-p", pkg] + KANI_FLAGS + ["-Z", "concrete-playback", "--concrete-playback=print",
                "--output-format", "terse", "--harness-timeout", str(timeout), "--exact", "--harness", full_name(cat, u)]
-        if getattr(cat, "FEATURES", {}).get(pkg):
-            cmd += cat.FEATURES[pkg]
+        if u.get("features"):
+            cmd += u["features"].split()
         rc, out, wall = sh(cmd, cwd=dst, timeout=timeout + 900)
         tests = [t for t in re.findall(r"```\n(.*?)```", out, re.S) if "concrete_playback_run" in t]
         return u["name"], tests, out
@@ -306,7 +306,7 @@ def concrete_playback(cat, dst, scratch, pkg, units, timeout):
     return res, outs
 
 
-def native_replay(cat, pkg, tests_by_module):
+def native_replay(cat, pkg, tests_by_module, feats=""):
     """fresh scratch from the current /repo, inject the modules + the generated #[test]s and run them
     natively (no verifier involved).  returns ({test name: status}, output); a test counts as
     `reproduced` only if it fails with a panic raised in the contract file or in the crate's own
@@ -317,8 +317,8 @@ def native_replay(cat, pkg, tests_by_module):
         mods = deps_closure(cat, sorted(tests_by_module))
         inject(cat, dst, scratch, mods, extra_tests={m: "\n".join(ts) for m, ts in tests_by_module.items()})
         cmd = ["cargo", "kani", "playback", "-Z", "concrete-playback", "-p", pkg]
-        if getattr(cat, "FEATURES", {}).get(pkg):
-            cmd += cat.FEATURES[pkg]
+        if feats:
+            cmd += feats.split()
         cmd += ["--", "kani_concrete_playback", "--test-threads", "4"]
         rc, out, wall = sh(cmd, cwd=dst, timeout=1800, env={"RUST_BACKTRACE": "0"})
         status = {}
@@ -456,21 +456,24 @@ def check(prop, tier, only=None, keep=False):
             injected = inject(cat, dst, scratch, mods)
             files = [os.path.join(CONTRACTS, cat.MODULES[m]["file"]) for m in mods]
             assumptions += scan_assumptions(files)
+            for st in sorted({tuple(x) for u in kani_units for x in u.get("stubs", [])}):
+                assumptions.append("kani::stub declared in the catalogue: %s replaced by %s" % st)
         if kani_units:
             pkgs = sorted({cat.MODULES[u["module"]]["pkg"] for u in kani_units})
             jobs = int(os.environ.get("VERIF_JOBS", "0") or 0) or min(16, max(1, len(kani_units)))
             timeout = max(u.get("timeout", 600) for u in kani_units)
             if tier == "thorough":
                 timeout = max(timeout, 3600)
-            for pkg in pkgs:
-                pu = [u for u in kani_units if cat.MODULES[u["module"]]["pkg"] == pkg]
+            groups = sorted({(cat.MODULES[u["module"]]["pkg"], u.get("features", "")) for u in kani_units})
+            for pkg, feats in groups:
+                pu = [u for u in kani_units if cat.MODULES[u["module"]]["pkg"] == pkg and u.get("features", "") == feats]
                 # seed only permutes scheduling order
                 if seed:
                     pu = pu[seed % len(pu):] + pu[:seed % len(pu)]
                 # long obligations first
                 pu.sort(key=lambda u: -u.get("cost", 1))
                 log("[check] kani: %d obligation(s) in %s, -j %d, harness timeout %ds" % (len(pu), pkg, min(jobs, len(pu)), timeout))
-                res, out, wall, tl = run_kani(cat, dst, scratch, pkg, pu, timeout, min(jobs, len(pu)))
+                res, out, wall, tl = run_kani(cat, dst, scratch, pkg, pu, timeout, min(jobs, len(pu)), feats)
                 tools.update(tl)
                 results.update(res)
                 open(os.path.join(scratch, "kani-%s.log" % pkg), "w").write(out)
@@ -571,19 +574,19 @@ def handle_violations(cat, prop, items, dst, scratch):
         for u in us:
             oo = o.get(u["name"], "")
             kout[u["name"]] = "\n".join(l for l in oo.split("\n") if not l.startswith("warning") and "-->" not in l and not re.match(r"^\s*(\d+)?\s*\|", l))
-    # one native run per package with all generated tests
+    # one native run per (package, feature set) with all generated tests
     native = {}
     nout = {}
-    for pkg in sorted({cat.MODULES[u["module"]]["pkg"] for u, _, _ in kani_items}):
+    for pkg, feats in sorted({(cat.MODULES[u["module"]]["pkg"], u.get("features", "")) for u, _, _ in kani_items}):
         by_mod = {}
         for u, _, _ in kani_items:
-            if cat.MODULES[u["module"]]["pkg"] != pkg:
+            if cat.MODULES[u["module"]]["pkg"] != pkg or u.get("features", "") != feats:
                 continue
             for t in tests.get(u["name"], []):
                 by_mod.setdefault(u["module"], []).append(t)
         if by_mod:
             try:
-                st, o = native_replay(cat, pkg, by_mod)
+                st, o = native_replay(cat, pkg, by_mod, feats)
             except Undecided as e:
                 st, o = {}, str(e)
             native.update(st)
@@ -593,7 +596,7 @@ def handle_violations(cat, prop, items, dst, scratch):
         fc = [describe(c) for c in failed] if isinstance(failed, list) else [str(failed)]
         rp = dict(property=prop, obligation=u["name"], engine=u["engine"], harness=u.get("harness"), module=u.get("module"),
                   package=pkg, statement=u.get("desc", ""), functions=u.get("functions", []), failed_checks=fc,
-                  reproduced=False, test_name=None, test_source=None, verifier_output=None,
+                  features=u.get("features", ""), reproduced=False, test_name=None, test_source=None, verifier_output=None,
                   repo_head=git_head(), created=time.strftime("%Y-%m-%dT%H:%M:%S"))
         if u["engine"] == "kani":
             rp["verifier_output"] = kout.get(u["name"], "")[-8000:]
@@ -682,7 +685,7 @@ def replay(path):
     for c in rp["failed_checks"]:
         print("  failed check:", c)
     if rp.get("test_source") and rp.get("engine") == "kani":
-        st, out = native_replay(cat, rp["package"], {rp["module"]: [rp["test_source"]]})
+        st, out = native_replay(cat, rp["package"], {rp["module"]: [rp["test_source"]]}, rp.get("features", ""))
         print(out[-2500:])
         status = st.get(rp["test_name"], "not run")
         print("native replay on the current /repo working tree: %s" % status)
